@@ -94,6 +94,9 @@ func (vc *VC) termFact(f string) {
 	if vc.termFacts[f] {
 		return
 	}
+	if strings.Contains(f, "!q") && !strings.HasPrefix(f, "(forall") {
+		return // mentions a quantifier-bound variable: not a closed fact
+	}
 	vc.termFacts[f] = true
 	vc.fact(f)
 }
